@@ -203,4 +203,28 @@ theorem build_inner (link : Link) (hs : Sym link) (avail : List Nat) (seed : Nat
   rw [hb, ← hids]
   exact List.mem_map_of_mem (List.mem_of_getElem? hbj)
 
+/-- the two end ports of a built node are different ports -/
+theorem build_ports_ne (link : Link) (hs : Sym link) (avail : List Nat) (seed : Nat) (hseed : seed ∈ avail) :
+    lastPort (Walk.walk link (Walk.rm avail seed) seed .L).1 seed .L ≠
+      lastPort (Walk.walk link (Walk.walk link (Walk.rm avail seed) seed .L).2 seed .R).1 seed .R := by
+  have ok := Walk.build_ok link hs avail seed hseed
+  generalize hlw : Walk.walk link (Walk.rm avail seed) seed .L = lw at *
+  generalize hrw : Walk.walk link lw.2 seed .R = rw at *
+  have hb : (Walk.build link avail seed).1 = (lw.1.map Prod.fst).reverse ++ [seed] ++ rw.1.map Prod.fst := by
+    unfold Walk.build; simp only [hlw, hrw]
+  have hids := nodeChain_ids lw.1 rw.1 seed
+  have hnd := nodup_fst_inj (nodeChain lw.1 rw.1 seed) (by rw [hids, ← hb]; exact ok.nodup)
+  obtain ⟨c0, h0, hc0⟩ := nodeChain_head lw.1 rw.1 seed
+  have hm := nodeChain_last lw.1 rw.1 seed
+  intro he
+  rw [← hc0] at he
+  have e1 : c0.1 = (lastPort rw.1 seed .R).1 := by
+    have := congrArg Prod.fst he
+    simpa [flip2] using this
+  have hidx := hnd 0 _ c0 _ h0 hm e1
+  rw [← hidx, h0] at hm
+  have : c0 = lastPort rw.1 seed .R := Option.some.inj hm
+  rw [← this] at he
+  exact flip2_ne c0 he
+
 end Compress
